@@ -1,7 +1,7 @@
 (* C10 - The current state is exactly what the user's model stores.  Statements only. *)
 From Coq Require Import List Arith Bool ZArith.
 Import ListNotations.
-From PySM Require Import Impl.Storage Proofs.StorageProofs Impl.Engine Proofs.EngineFrame Proofs.EngineProofs.
+From PySM Require Import Proofs.WritesLocal Impl.Storage Proofs.StorageProofs Impl.Engine Proofs.EngineFrame Proofs.EngineProofs.
 
 (* whatever valid value the model stores - written by the machine or from outside, of any kind of
    value, falsy ones included - current_state is the state with that value and is_active holds for
@@ -35,6 +35,12 @@ Theorem C10_engine_stores_target :
   forall t td c, act_effect t c (activate beh nested rm t td c).
 Proof. exact activate_effect. Qed.
 Print Assumptions C10_engine_stores_target.
+
+Theorem C10_engine_stores_target_local :
+  forall beh nested rm, (forall td c, Rres grows c (nested td c)) ->
+  forall t td c, quiet beh (all_cbs t) -> act_effect t c (activate beh nested rm t td c).
+Proof. exact activate_effect_local. Qed.
+Print Assumptions C10_engine_stores_target_local.
 
 (* an unmapped value through the setter raises InvalidStateValue and nothing is stored *)
 Theorem C10_invalid_value_rejected :
